@@ -64,21 +64,26 @@ func c16Norm(e ast.Expr, extra map[string]ast.Expr) string {
 }
 
 // c16Atoms flattens a case condition `a == S && b == T && ...` into
-// (field, state value) pairs in evaluation order.
-func c16Atoms(e ast.Expr, states map[string]string) ([]string, bool) {
+// (field, state value) pairs in evaluation order; once-assigned locals are
+// resolved to their definition first.
+func c16Atoms(e ast.Expr, states map[string]string, subst map[string]ast.Expr) ([]string, bool) {
 	switch x := e.(type) {
 	case *ast.ParenExpr:
-		return c16Atoms(x.X, states)
+		return c16Atoms(x.X, states, subst)
+	case *ast.Ident:
+		if d, ok := subst[x.Name]; ok {
+			return c16Atoms(d, states, subst)
+		}
 	case *ast.BinaryExpr:
 		if x.Op == token.LAND {
-			l, ok1 := c16Atoms(x.X, states)
-			r, ok2 := c16Atoms(x.Y, states)
+			l, ok1 := c16Atoms(x.X, states, subst)
+			r, ok2 := c16Atoms(x.Y, states, subst)
 			return append(l, r...), ok1 && ok2
 		}
 		if x.Op == token.EQL {
 			for _, pr := range [][2]ast.Expr{{x.X, x.Y}, {x.Y, x.X}} {
-				f, ok := c16Field[c16Norm(pr[0], nil)]
-				v, ok2 := states[strings.TrimPrefix(exprString(pr[1]), "sidecar.")]
+				f, ok := c16Field[c16Norm(pr[0], subst)]
+				v, ok2 := states[strings.TrimPrefix(c16Norm(pr[1], subst), "sidecar.")]
 				if ok && ok2 {
 					return []string{fmt.Sprintf("(%d, %s)", f, v)}, true
 				}
@@ -88,20 +93,60 @@ func c16Atoms(e ast.Expr, states map[string]string) ([]string, bool) {
 	return nil, false
 }
 
+// c16Disjuncts splits `A || B || …` (through parentheses and once-assigned
+// boolean locals) into its alternatives.
+func c16Disjuncts(e ast.Expr, subst map[string]ast.Expr) []ast.Expr {
+	switch x := e.(type) {
+	case *ast.ParenExpr:
+		return c16Disjuncts(x.X, subst)
+	case *ast.Ident:
+		if d, ok := subst[x.Name]; ok {
+			if b, ok := c16Unparen(d).(*ast.BinaryExpr); ok && b.Op == token.LOR {
+				return c16Disjuncts(d, subst)
+			}
+		}
+	case *ast.BinaryExpr:
+		if x.Op == token.LOR {
+			return append(c16Disjuncts(x.X, subst), c16Disjuncts(x.Y, subst)...)
+		}
+	}
+	return []ast.Expr{e}
+}
+
 // c16Calls lists, in source order, the driver / mailbox calls and goroutine
 // spawns of a statement list.
-func c16Calls(stmts []ast.Stmt) []string {
+func c16Calls(stmts []ast.Stmt) []string { return c16CallsD(stmts, 0) }
+
+// c16CallsD lists, in source order, the driver / mailbox calls and goroutine
+// spawns of a statement list; calls of methods of the same receiver are
+// followed (their calls appear in place), local aliases are resolved.
+func c16CallsD(stmts []ast.Stmt, depth int) []string {
 	var calls []string
+	local := c16OnceAssigned(&ast.BlockStmt{List: stmts})
 	for _, s := range stmts {
 		ast.Inspect(s, func(n ast.Node) bool {
 			switch x := n.(type) {
+			case *ast.FuncLit:
+				return false
 			case *ast.GoStmt:
-				calls = append(calls, "go "+c16Norm(x.Call.Fun, nil))
+				calls = append(calls, "go "+c16Norm(x.Call.Fun, local))
 				return false
 			case *ast.CallExpr:
-				fn := c16Norm(x.Fun, nil)
+				fn := c16Norm(x.Fun, local)
 				if strings.HasPrefix(fn, "a.cfg.Driver.") || strings.HasPrefix(fn, "a.cfg.MailBox.") {
 					calls = append(calls, strings.TrimPrefix(fn, "a.cfg."))
+				} else if strings.HasPrefix(fn, "a.") && strings.Count(fn, ".") == 1 && depth < 2 {
+					if fd := findFunc(c16Files, "SidecarNegotiator."+strings.TrimPrefix(fn, "a.")); fd != nil && fd.Body != nil {
+						// arguments are evaluated first
+						for _, a := range x.Args {
+							calls = append(calls, c16CallsD([]ast.Stmt{&ast.ExprStmt{X: a}}, depth+1)...)
+						}
+						savedR, savedP := c16Recv, c16Pkt
+						c16SetNames(fd)
+						calls = append(calls, c16CallsD(fd.Body.List, depth+1)...)
+						c16Recv, c16Pkt = savedR, savedP
+						return false
+					}
 				}
 			}
 			return true
@@ -112,11 +157,50 @@ func c16Calls(stmts []ast.Stmt) []string {
 
 // c16Return finds the last `return &SidecarPacket{...}, nil` of a clause.
 func c16Return(stmts []ast.Stmt, states map[string]string) (res, recv, prov string) {
+	return c16ReturnS(stmts, states, nil, 0)
+}
+
+func c16ReturnS(stmts []ast.Stmt, states map[string]string, outer map[string]ast.Expr, depth int) (res, recv, prov string) {
 	res, recv, prov = "none", "", ""
 	local := c16OnceAssigned(&ast.BlockStmt{List: stmts})
+	for k, v := range outer {
+		local[k] = v
+	}
 	for _, s := range stmts {
 		ast.Inspect(s, func(n ast.Node) bool {
 			r, ok := n.(*ast.ReturnStmt)
+			if ok && len(r.Results) == 1 && depth < 2 {
+				// `return a.helper(args…)`: the packet the helper returns,
+				// with its parameters bound to the arguments
+				if c, ok := r.Results[0].(*ast.CallExpr); ok {
+					fn := c16Norm(c.Fun, local)
+					if strings.HasPrefix(fn, "a.") && strings.Count(fn, ".") == 1 {
+						if fd := findFunc(c16Files, "SidecarNegotiator."+strings.TrimPrefix(fn, "a.")); fd != nil && fd.Body != nil {
+							bind := map[string]ast.Expr{}
+							k := 0
+							for _, f := range fd.Type.Params.List {
+								for _, pn := range f.Names {
+									if k < len(c.Args) {
+										bind[pn.Name] = ast.NewIdent(c16Norm(c.Args[k], local))
+									}
+									k++
+								}
+							}
+							if fd.Recv != nil && len(fd.Recv.List[0].Names) == 1 {
+								bind[fd.Recv.List[0].Names[0].Name] = ast.NewIdent("a")
+							}
+							savedR, savedP := c16Recv, c16Pkt
+							c16Recv, c16Pkt = "a", "pkt"
+							r2, rv2, pv2 := c16ReturnS(fd.Body.List, states, bind, depth+1)
+							c16Recv, c16Pkt = savedR, savedP
+							if r2 != "none" {
+								res, recv, prov = r2, rv2, pv2
+							}
+						}
+					}
+				}
+				return true
+			}
 			if !ok || len(r.Results) != 2 {
 				return true
 			}
@@ -171,22 +255,25 @@ func c16StepTable(l *leanFile, name string, fd *ast.FuncDecl, states map[string]
 		return
 	}
 	l.p("def %s : List StepCase := [", name)
-	n := len(sw.Body.List)
 	var sigs []string
 	var falls []bool
+	fsub := c16OnceAssigned(fd.Body)
+	type row struct {
+		isDefault, fall  bool
+		atoms            []string
+		res, recv, prov  string
+		calls            []string
+	}
+	var rows []row
+	hasDefault := false
 	for i, c := range sw.Body.List {
 		cc := c.(*ast.CaseClause)
-		var atoms []string
-		if len(cc.List) == 1 {
-			var ok bool
-			atoms, ok = c16Atoms(cc.List[0], states)
-			if !ok {
-				fail("C16: %s case %d: condition %q is not a conjunction of state equalities", name, i, exprString(cc.List[0]))
-			}
-		} else if len(cc.List) > 1 {
+		if cc.List == nil {
+			hasDefault = true
+		}
+		if len(cc.List) > 1 {
 			fail("C16: %s case %d has %d expressions", name, i, len(cc.List))
 		}
-		isDefault := cc.List == nil
 		fall := false
 		if k := len(cc.Body); k > 0 {
 			if b, ok := cc.Body[k-1].(*ast.BranchStmt); ok && b.Tok == token.FALLTHROUGH {
@@ -194,17 +281,52 @@ func c16StepTable(l *leanFile, name string, fd *ast.FuncDecl, states map[string]
 			}
 		}
 		res, recv, prov := c16Return(cc.Body, states)
+		calls := c16Calls(cc.Body)
+		if cc.List == nil {
+			rows = append(rows, row{isDefault: true, fall: fall, res: res, recv: recv, prov: prov, calls: calls})
+			continue
+		}
+		// `A || B`: the alternatives share the body, i.e. A falls through into B
+		alts := c16Disjuncts(cc.List[0], fsub)
+		for k, alt := range alts {
+			atoms, ok := c16Atoms(alt, states, fsub)
+			if !ok {
+				fail("C16: %s case %d: condition %q is not a conjunction of state equalities", name, i, exprString(alt))
+			}
+			if k < len(alts)-1 {
+				rows = append(rows, row{fall: true, atoms: atoms, res: "none"})
+			} else {
+				rows = append(rows, row{fall: fall, atoms: atoms, res: res, recv: recv, prov: prov, calls: calls})
+			}
+		}
+	}
+	if !hasDefault {
+		// code after the switch plays the role of the default clause
+		var after []ast.Stmt
+		seen := false
+		for _, st := range fd.Body.List {
+			if seen {
+				after = append(after, st)
+			}
+			if st == ast.Stmt(sw) {
+				seen = true
+			}
+		}
+		res, recv, prov := c16Return(after, states)
+		rows = append(rows, row{isDefault: true, res: res, recv: recv, prov: prov, calls: c16Calls(after)})
+	}
+	for i, rw := range rows {
 		sep := ","
-		if i == n-1 {
+		if i == len(rows)-1 {
 			sep = ""
 		}
 		l.p("  { isDefault := %v, atoms := [%s], fall := %v, result := %s, calls := %s, retRecv := %q, retProv := %q }%s",
-			isDefault, strings.Join(atoms, ", "), fall, res, leanStrList(c16Calls(cc.Body)), recv, prov, sep)
-		sa := append([]string{}, atoms...)
+			rw.isDefault, strings.Join(rw.atoms, ", "), rw.fall, rw.res, leanStrList(rw.calls), rw.recv, rw.prov, sep)
+		sa := append([]string{}, rw.atoms...)
 		sort.Strings(sa)
-		sigs = append(sigs, fmt.Sprintf("default=%v;guard=%s;result=%s;calls=%s;recv=%s;prov=%s", isDefault,
-			strings.Join(sa, "&"), res, strings.Join(c16Calls(cc.Body), "+"), recv, prov))
-		falls = append(falls, fall)
+		sigs = append(sigs, fmt.Sprintf("default=%v;guard=%s;result=%s;calls=%s;recv=%s;prov=%s", rw.isDefault,
+			strings.Join(sa, "&"), rw.res, strings.Join(rw.calls, "+"), rw.recv, rw.prov))
+		falls = append(falls, rw.fall)
 	}
 	l.p("]")
 	// the clauses as a SET of (guard, effect) signatures; a clause that falls
@@ -481,6 +603,7 @@ func genC16() {
 	l.p("def terminalStates : List Nat := [%s]", strings.Join(term, ", "))
 
 	root := pkgFiles(".")
+	c16Files = root
 	c16StepTable(l, "providerCases", findFunc(root, "SidecarNegotiator.stateStepProvider"), states)
 	c16StepTable(l, "recipientCases", findFunc(root, "SidecarNegotiator.stateStepRecipient"), states)
 	c16LoopFacts(l, "provider", findFunc(root, "SidecarNegotiator.autoSidecarProvider"))
